@@ -234,6 +234,41 @@ func neoDistinctValid(d neoDesc, inv []byte, msg []byte) int {
 	return len(seen)
 }
 
+// neoRootVariant: optional trailing token r<k> (k = 0..9) selects another state root for the same index.
+func neoRootVariant(op []string, n int) (string, bool) {
+	if len(op) == n {
+		return "22", true
+	}
+	if len(op) == n+1 && len(op[n]) == 2 && op[n][0] == 'r' && op[n][1] >= '0' && op[n][1] <= '9' {
+		return fmt.Sprintf("%02x", 0x30+int(op[n][1]-'0')), true
+	}
+	return "", false
+}
+
+// neoAlteredReplays: after a genuine state root at index idx was accepted, other messages claiming the same index
+// (another root, or the same root) with an empty / wrong-message / foreign / missing witness must be refused.
+func neoAlteredReplays(r *hx.Run, opName string, n, idx, m int, ks []int, cons string, foreignCons, foreignSigs string) {
+	good, _ := neoSigShape(r, m, ks, 0)
+	res := r.Do(fmt.Sprintf("%s %d %s %s", opName, idx, cons, good))
+	r.Nontrivial(fmt.Sprintf("%d/replay-base/%s", n, res))
+	bad := strings.Replace(good, "g", "w", 1)
+	for i, alt := range []string{
+		fmt.Sprintf("%s %d %s - r1", opName, idx, cons),
+		fmt.Sprintf("%s %d %s %s r1", opName, idx, cons, bad),
+		fmt.Sprintf("%s %d %s %s r2", opName, idx, foreignCons, foreignSigs),
+		fmt.Sprintf("%s %d - - r3", opName, idx),
+		fmt.Sprintf("%s %d %s -", opName, idx, cons),
+		fmt.Sprintf("%s %d %s %s", opName, idx, cons, bad),
+	} {
+		res := r.Do(alt)
+		r.Nontrivial(fmt.Sprintf("%d/replay-altered-%d/%s", n, i, res))
+		r.Hist("shape.replay-altered")
+	}
+	// the genuine one again, and a genuine one for another root at the same index: both fine
+	r.Do(fmt.Sprintf("%s %d %s %s", opName, idx, cons, good))
+	r.Do(fmt.Sprintf("%s %d %s %s r4", opName, idx, cons, good))
+}
+
 type neoHdrSpec struct {
 	index               uint32
 	next, wscript, sigs string
@@ -358,7 +393,8 @@ func (f *neoFam) Exec(r *hx.Run, op []string) string {
 		}
 		return res + " " + f.showTracked()
 	case "nmsg":
-		if len(op) != 4 {
+		rootByte, okr := neoRootVariant(op, 4)
+		if !okr {
 			return "bad-op"
 		}
 		idx, err := strconv.ParseUint(op[1], 10, 32)
@@ -368,7 +404,7 @@ func (f *neoFam) Exec(r *hx.Run, op []string) string {
 		}
 		msg := &neo.NeoCrossChainMsg{StateRoot: &mpt.StateRoot{Version: 0, Index: uint32(idx),
 			PreHash:   strings.Repeat("11", 32),
-			StateRoot: strings.Repeat("22", 32)}}
+			StateRoot: strings.Repeat(rootByte, 32)}}
 		var wd neoDesc
 		if op[2] != "-" {
 			var ok bool
@@ -595,6 +631,7 @@ func (f *neoFam) genMsg(r *hx.Run) {
 			r.Nontrivial(fmt.Sprintf("%d/exact/other-script/%s", n, res))
 			res = r.Do(fmt.Sprintf("nmsg %d - -", idx+3))
 			r.Nontrivial(fmt.Sprintf("%d/empty/no-script/%s", n, res))
+			neoAlteredReplays(r, "nmsg", n, idx+10, m, ks, cons, other, sigs2)
 			if n > 1 {
 				perm := append([]int{}, ks...)
 				perm[0], perm[1] = perm[1], perm[0]
